@@ -335,6 +335,8 @@ theorem splitPath_key {e} {path : Bytes} {parts : List Bytes} {key : Bytes}
       exact ⟨QK_nil e, by simp⟩
     · cases h
   · rename_i x rest _ heq
+    split at h
+    · cases h
     simp only [Option.some.injEq, Prod.mk.injEq] at h
     obtain ⟨rfl, rfl⟩ := h
     rw [heq] at hp
@@ -623,6 +625,8 @@ theorem ensurePath_K {e o r path} (hr : RootK e r)
   · exact hr
   · exact hr
   · rename_i hd parts _ heq
+    split
+    · exact hr
     have := ensure_K (e := e) o parts r.selfCR r.self r.con
       (fun p h => hp p (by rw [heq]; exact List.mem_cons_of_mem _ h)) hr.1 hr.2
     cases h : ensure o r.selfCR r.self r.con parts with
